@@ -87,6 +87,13 @@ func (u *Unit) registerTyped(elem types.Type, obj, off *Term) []*Term {
 		}
 		out = append(out, alt)
 	}
+	// local variables of unrelated type allocated so far (concrete object ids)
+	for _, q := range u.allocs {
+		if containsType(q.elem, elem, 0) || containsType(elem, q.elem, 0) {
+			continue
+		}
+		out = append(out, tb.Not(tb.Eq(obj, q.obj)))
+	}
 	u.ptrs = append(u.ptrs, typedPtr{elem, obj, off})
 	return out
 }
